@@ -7,7 +7,7 @@ import time
 import traceback
 
 ROOT = os.path.dirname(os.path.dirname(os.path.abspath(__file__)))
-EVID = os.path.join(ROOT, 'evidence')
+EVID = os.environ.get('VERIF_EVIDENCE_DIR') or os.path.join(ROOT, 'evidence')
 REPLAYS = os.path.join(ROOT, 'replays')
 KNOWN = os.path.join(ROOT, 'known_findings.jsonl')
 
